@@ -1,7 +1,7 @@
 (* C19 -- property theorems only.  Proofs live in C19/Proofs*.v. *)
 From Coq Require Import NArith List.
 From DV Require Import Base.Outcome Base.Bytes Base.Names Base.PName C19.Gen C19.Model
-  C19.ModelCmp C19.ProofsDec C19.ProofsOld C19.ProofsNew C19.ProofsAgree C19.ProofsCmp.
+  C19.ModelCmp C19.ProofsDec C19.ProofsOld C19.ProofsNew C19.ProofsAgree C19.ProofsCmp C19.ProofsCmpSound.
 Import ListNotations.
 Local Open Scope N_scope.
 
@@ -73,26 +73,6 @@ Proof. exists [192;11]. eexists. eexists. exact agree_refuted_header. Qed.
 Print Assumptions C19_agree_refuted_header.
 
 (* ---- the new name compressor (model: C19/ModelCmp.v, T2 kind `bim`) ---- *)
-(* "only ever emits pointers that resolve to the intended name" is false for the
-   pinned code: three findings, each stated under the T1 flag that says the
-   repair is absent (pending/C19-compressor-*.diff) *)
-Theorem C19_new_compressor_sound_refuted : cmp_checks_attach = false ->
-  exists names c w e, c19_build 0 names = Ok c /\ nth_error names 2 = Some n_x_a_b_c /\
-    new_split c 9 = Ok (w, e) /\ w = n_x_a_c /\ w <> n_x_a_b_c.
-Proof. exact compressor_sound_refuted. Qed.
-Print Assumptions C19_new_compressor_sound_refuted.
-
-Theorem C19_new_compressor_overflow_refuted : cn_range_check = false ->
-  c19_build 16370 [[1;97;7;101;120;97;109;112;108;101;0]; [1;98;7;101;120;97;109;112;108;101;0]]
-    = Panic PC_ADD_OVERFLOW.
-Proof. exact compressor_overflow_refuted. Qed.
-Print Assumptions C19_new_compressor_overflow_refuted.
-
-Theorem C19_new_compressor_label_boundary_refuted : cmp_aligns_suffix = false ->
-  c19_build 0 [[1;97;2;97;98;0]; [2;1;97;2;97;98;0]] = Panic PC_UNREACHABLE.
-Proof. exact compressor_label_boundary_refuted. Qed.
-Print Assumptions C19_new_compressor_label_boundary_refuted.
-
 (* with the range check in place every offset handed out fits a 14-bit pointer
    (header included) and `addr + 0xC00C` cannot overflow, for all states,
    contents and names *)
@@ -101,3 +81,28 @@ Theorem C19_compress_name_pointer_range : range_fixed ->
     o + 12 < 16384 /\ o + 49164 <= 65535.
 Proof. exact compress_name_pointer_range. Qed.
 Print Assumptions C19_compress_name_pointer_range.
+
+(* what a lookup hit means, for EVERY compressor state, contents and name: the
+   name is cut on a label boundary and the octets at the returned offset equal
+   the cut-off labels up to u8::to_ascii_lowercase, length octets included *)
+Theorem C19_lookup_hit_sound : forall k i0 st c n parent poff hash i rest h p, n <> [] ->
+  lookup_from k i0 st c (wire_rel n) parent poff hash = LkHit i rest h p ->
+  hit_ok st c n parent i rest p.
+Proof. exact lookup_hit_sound. Qed.
+Print Assumptions C19_lookup_hit_sound.
+
+(* new_compressor_sound, single entry / no eviction: a fresh compressor, any
+   contents written before, any two valid names: whatever Name::build_in_message
+   writes (verbatim or rest + pointer), both names read back equal up to case,
+   through the new AND the old reader, ending exactly at the end of the name *)
+Theorem C19_new_compressor_sound_two_names : forall (h c0 : bytes) (n1 n2 : name) (c : bytes),
+  length h = 12%nat -> wf_bytes c0 -> valid_abs n1 -> valid_abs n2 ->
+  build_names cs_new c0 [wire_abs n1; wire_abs n2] = Ok c ->
+  (exists n1', canon n1' = canon n1 /\
+     new_split c (len c0) = Ok (wire_abs n1', len c0 + len (wire_abs n1)) /\
+     decode_name (h ++ c) (12 + len c0) (mlen (h ++ c)) = Ok (n1', 12 + (len c0 + len (wire_abs n1)))) /\
+  (exists n2', canon n2' = canon n2 /\
+     new_split c (len c0 + len (wire_abs n1)) = Ok (wire_abs n2', len c) /\
+     decode_name (h ++ c) (12 + (len c0 + len (wire_abs n1))) (mlen (h ++ c)) = Ok (n2', 12 + len c)).
+Proof. exact compressor_two_names_sound. Qed.
+Print Assumptions C19_new_compressor_sound_two_names.
